@@ -15,8 +15,8 @@ Definition ik_range (k : ikind) (x : Z) : bool :=
   match k with
   | U8 => in_range 0 256 x | I8 => in_range (-128) 128 x
   | U16 => in_range 0 65536 x | I16 => in_range (-32768) 32768 x
-  | U32 => in_range 0 (2 ^ 32) x | I32 => in_range (- 2 ^ 31) (2 ^ 31) x
-  | U64 => in_range 0 (2 ^ 64) x | I64 => in_range (- 2 ^ 63) (2 ^ 63) x
+  | U32 => in_range 0 4294967296 x | I32 => in_range (-2147483648) 2147483648 x
+  | U64 => in_range 0 18446744073709551616 x | I64 => in_range (-9223372036854775808) 9223372036854775808 x
   | IInt | IUint => false
   end.
 
@@ -50,8 +50,8 @@ Definition in_domain (t : Z) (v : value) (len : Z) : bool :=
        || ((t =? t_INTN) && (ikind_eqb k U8 || ikind_eqb k I16 || ikind_eqb k I32 || ikind_eqb k I64))
        || ((t =? t_UINTN) && (ikind_eqb k U8 || ikind_eqb k U16 || ikind_eqb k U32 || ikind_eqb k U64)))
   | VFlt w b =>
-      ((w =? 32) && in_range 0 (2 ^ 32) b && ((t =? t_FLT4) || (t =? t_FLTN)))
-      || ((w =? 64) && in_range 0 (2 ^ 64) b && ((t =? t_FLT8) || (t =? t_FLTN)))
+      ((w =? 32) && in_range 0 4294967296 b && ((t =? t_FLT4) || (t =? t_FLTN)))
+      || ((w =? 64) && in_range 0 18446744073709551616 b && ((t =? t_FLT8) || (t =? t_FLTN)))
   | VBool _ => t =? t_BIT
   | VStr bs => is_in t char_types && negb (zlen bs =? 0) && bytes_ok bs
   | VBytes bs => is_in t bin_types && negb (zlen bs =? 0) && bytes_ok bs
@@ -94,8 +94,10 @@ Definition equiv (t : Z) (len : Z) (v v' : value) : bool :=
       valid_time b &&
       (if is_in t [t_DATE; t_DATEN] then ctime_eqb b (CT (cy a) (cmo a) (cd a) 0 0 0 0)
        else if is_in t [t_TIME; t_TIMEN] then
-         (* the decoded value is a time of day on 0001-01-01 (or midnight of the next day when the last tick rounds up) *)
-         within_tick (abs_ns b) (tod_ns a) && (if on_tick (tod_ns a) then abs_ns b =? tod_ns a else true)
+         (* the decoded value is a time of day on 0001-01-01; a time in the last half tick of the day has no
+            nearest tick inside the day: the last tick (23:59:59.996) stands for it *)
+         (if tod_ns a <? 86399998334000 then within_tick (abs_ns b) (tod_ns a) else abs_ns b =? 86399996000000)
+         && (if on_tick (tod_ns a) then abs_ns b =? tod_ns a else true)
        else if len =? 4 then   (* smalldatetime: to the minute *)
          ctime_eqb b (CT (cy a) (cmo a) (cd a) (ch a) (cmi a) 0 0)
        else if is_in t [t_DATETIME; t_DATETIMEN] then
@@ -113,6 +115,11 @@ Definition roundtrip_ok (t len : Z) (v : value) (eo : outcome bytes) (d : option
   match v with
   | VNull =>
       if nullable t then
+        match eo, d with Ok [], Some (Ok v') => is_null v' | _, _ => false end
+      else true
+  | VDec _ _ None =>
+      (* the library's NULL of the nullable money/decimal types: zero length, and NULL again *)
+      if nullable t && is_in t [t_MONEYN; t_DECN; t_NUMN] then
         match eo, d with Ok [], Some (Ok v') => is_null v' | _, _ => false end
       else true
   | _ =>
